@@ -226,7 +226,7 @@ def eof_program(draw, with_appendc=False, tame_conditions=False):
     if summ.tail or summ.nullable:
         prefix = prefix + (("match", ("lit", b";", "str")),)
     shape = draw(st.sampled_from(["stmt", "cat", "case", "case-else", "wait", "try-case", "none", "none-open", "optional-end", "loop-case-end",
-                                  "loop-case-end", "try-open-regex"]))
+                                  "loop-case-end", "try-open-regex", "tail-optional-end", "tail-optional-case-end", "two-tail-optionals"]))
     acts = draw(tail_actions(env, with_appendc))
     if shape == "stmt":
         body = prefix + (("match", ("end",)),) + acts
@@ -256,6 +256,13 @@ def eof_program(draw, with_appendc=False, tame_conditions=False):
         rgx = ("re", ("seq", (("lit", 0x61), ("op", ("set", (("c", 0x62),), True), "*"))), False)
         handler = (("match", ("end",)),) + acts
         body = prefix + (("try", ("nomatch",), (("match", rgx),), handler), ("match", ("lit", b"b", "str")), ("hook", prog.hooks[0]))
+    elif shape == "tail-optional-end":
+        # the program may stop here (accepting state) but also offers an `end` match with actions behind it
+        body = prefix + (("optional", (("match", ("end",)),) + acts),)
+    elif shape == "tail-optional-case-end":
+        body = prefix + (("optional", (("case", False, (((("end",),), None, acts), ((("lit", b"x", "str"),), None, draw(tail_actions(env))))),)),)
+    elif shape == "two-tail-optionals":
+        body = prefix + (("optional", (("match", ("lit", b"o", "str")),)), ("optional", (("match", ("end",)),) + acts))
     elif shape == "none":
         body = prefix
     elif shape == "none-open":
